@@ -422,3 +422,5 @@ w("C17", "**kwargs bundle recognised by comparing key sets again", "pandera/deco
 w("C16", "polars builder resolves the raw annotation before looking at the Annotated parameters", "pandera/api/polars/model.py",
   "            if annotation.metadata:\n                # the parameters of ``Annotated[dtype, *params]`` must not be\n                # dropped by resolving the annotation through its origin\n                if field.dtype_kwargs:",
   "            if annotation.metadata and not is_polars_dtype and annotation.origin is Series:\n                if field.dtype_kwargs:")
+w("C15", "rename_columns accepts repeated new names again", "pandera/api/dataframe/container.py",
+  "        if repeated:\n            raise errors.SchemaInitError(\n                f\"Keys {repeated} are the new name of more than one column!\"\n            )\n", "")
